@@ -62,6 +62,18 @@ CobsPush(e, st, b, MR) ==
   ELSE [e |-> [code |-> e.code, sent |-> e.sent + 1, off |-> e.off + 1], st |-> StPush(st, b)]
 CobsFinalize(e, st) == StPush(StPatch(st, e.code, e.sent), 0)
 
+\* the storage calls ser_flavors::Cobs makes for one byte (IndexMut patch of a code byte, pushes), as data:
+\* <<"patch", idx>> or <<"push", byte>>; mirrors CobsPush
+CobsOps(e, b, MR) ==
+  IF b = 0 THEN [e |-> [code |-> e.code + e.off, sent |-> 1, off |-> 1], ops |-> << <<"patch", e.code>>, <<"push", 0>> >>]
+  ELSE IF e.sent + 1 = MR + 1 THEN [e |-> [code |-> e.code + e.off + 1, sent |-> 1, off |-> 1], ops |-> << <<"patch", e.code>>, <<"push", b>>, <<"push", 0>> >>]
+  ELSE [e |-> [code |-> e.code, sent |-> e.sent + 1, off |-> e.off + 1], ops |-> << <<"push", b>> >>]
+RECURSIVE CobsOpsAll(_, _, _, _)
+CobsOpsAll(e, x, i, MR) == IF i > Len(x) THEN << <<"patch", e.code>>, <<"push", 0>> >>            \* finalize
+                           ELSE LET r == CobsOps(e, x[i], MR) IN r.ops \o CobsOpsAll(r.e, x, i + 1, MR)
+\* try_new reserves the first code byte; then every byte; then finalize
+CobsStoreOps(x, MR) == << <<"push", 0>> >> \o CobsOpsAll(EncInit, x, 1, MR)
+
 \* ---------------- in-place decoder machine (decode_raw with src = dst) ----------------
 \* state: [buf, srcEnd, si, di, left (bytes still to copy for the current code), code, status, lastR, lastW]
 \* lastR / lastW: index (0-based) of the last buffer read / write, -1 if none yet
